@@ -205,7 +205,9 @@ theorem step_unsubscribe (h : Rel seen y m) (i : Slot) (u : Nat) (hold : Bool) (
       have hmm : (m.slots i).modern = false := by rw [h.sess.modern i hu]; exact hmod
       split
       · exact ⟨rfl, h⟩
-      · refine ⟨rfl, ?_⟩
+      · split
+        · exact ⟨rfl, h⟩
+        refine ⟨rfl, ?_⟩
         have hleg : ((y.slots i).sid, Gen.legacy) ∈ y.srv.sessions := by
           have := h.sess.used_sess i hu
           rw [hmod] at this; exact this
